@@ -45,6 +45,11 @@ CLAIMS = {
   "note": "The clause 'no key beyond W has been emitted unless another trigger fired it' quantifies over histories and is not decided. Trusted: go/types, engine/absint, google/btree.",
   "technique": "finite-domain abstract interpretation with event-order checks",
  },
+ "C07": {
+  "text": "Crash sources that are visible in the code shape, decided on all paths: every integer division with a non-constant divisor on the query path is interpreted with the divisor forced to zero and must be unreachable (guards inside the callback or in the enclosing function are both recognised); every index, slice bound and strings.Repeat count in a function descriptor that derives from a query value must have 0 ≤ lo ≤ hi ≤ len / index < len entailed by the comparisons assumed on the path that reaches it; every enum switch that asserts exhaustiveness (panicking default/fall-out) lists every constant; wrong-arm payloads are never indexed; function bodies stay within their declared arity and payloads; typecheck panics are recovered into errors and Typecheck is only called through the recovering wrappers.",
+  "note": "Not decided: panics in third-party libraries, nil dereferences other than through union arms, out-of-memory, explicit invariant panics in container type assertions. Trusted: go/types, engine/absint, engine/unionfield.",
+  "technique": "abstract interpretation with forced-zero / bound-entailment scenarios + enum exhaustiveness over go/types",
+ },
 }
 
 NOT_APPLICABLE = {
